@@ -202,7 +202,9 @@ def run(ctx):
                 why = same_meaning(rng, td, r["ok"], readings)
             if why is not None:
                 explained = []
-                for kinds in (("KF6",), ("KF7",), ("KF6", "KF7"), ("KF8",), ("KF9",)):
+                # KF6 / KF7 are defects of the resolver only
+                candidates = (("KF6",), ("KF7",), ("KF6", "KF7")) if name.startswith("resolve") else ()
+                for kinds in candidates + (("KF8",), ("KF9",)):
                     fixed = common.load_tree(td)
                     repair(fixed, kinds)
                     r2, back2 = parsing.impl_parse(fixed.__str__(head_tail=True))
